@@ -378,8 +378,12 @@ void cstl_array_alloc(cstl_array_t * const a,
 {
     struct cstl_raw_array * ra;
 
-    cstl_shared_ptr_reset(&a->ptr);
-    cstl_shared_ptr_alloc(&a->ptr, sizeof(*ra) + nm * sz, NULL);
+    /* drop the old buffer *and* the old view of it */
+    cstl_array_reset(a);
+    if (sz == 0 || nm <= (SIZE_MAX - sizeof(*ra)) / sz) {
+        /* the size of the allocation is representable */
+        cstl_shared_ptr_alloc(&a->ptr, sizeof(*ra) + nm * sz, NULL);
+    }
 
     ra = cstl_shared_ptr_get(&a->ptr);
     if (ra != NULL) {
@@ -455,7 +459,8 @@ void cstl_array_slice(cstl_array_t * const a,
 
     if (ra == NULL
         || end < beg
-        || a->off + end > ra->nm) {
+        || a->off > ra->nm
+        || end > ra->nm - a->off) {
         abort();
     }
 
